@@ -275,6 +275,37 @@ def parseHeader (b : List Nat) : Except HeaderError (Nat × Nat) :=
     else if (b.drop 7).take 3 ≠ [0, 0, 0] then .error .invalidPadding
     else .ok (b.getD 4 0, len)
 
+/-! #### the translated header parser
+
+`Consts.frameHeaderChecks` is produced by the translator from the source text of `Frame::try_from` on every run: the checks
+in source order, each with the error it raises.  `parseHeaderT` gives them their meaning; `Thm.C13.C13_header_translation`
+proves it equal to `parseHeader` for every byte string. -/
+
+def HeaderError.ofCode? : Nat → Option HeaderError
+  | 0 => some .tooSmall | 1 => some .invalidHeader | 2 => some .versionMismatch | 3 => some .payloadEmpty
+  | 4 => some .excessiveLength | 5 => some .invalidPadding | _ => none
+
+/-- does the condition of a check hold (= the check raises its error); `none` = a condition without a meaning here -/
+def headerCond (b : List Nat) (c : Nat) : Option Bool :=
+  let len := b.getD 5 0 * 256 + b.getD 6 0
+  if c = 1 then some (decide (b.length ≠ protoBufferSize))
+  else if c = 2 then some (decide (b.take 3 ≠ protoHeader))
+  else if c = 3 then some (decide (b.getD 3 0 ≠ protoVersion))
+  else if c = 4 then some (decide (len = 0))
+  else if c = 5 then some (decide (len > maxPayloadSize))
+  else if c = 6 then some (decide ((b.drop 7).take 3 ≠ [0, 0, 0]))
+  else none
+
+/-- outer `none` = the table has a row this interpreter gives no meaning to -/
+def parseHeaderT : List (List Nat) → List Nat → Option (Except HeaderError (Nat × Nat))
+  | [], b => some (.ok (b.getD 4 0, b.getD 5 0 * 256 + b.getD 6 0))
+  | [c, e] :: rest, b =>
+    match headerCond b c, HeaderError.ofCode? e with
+    | some true, some err => some (.error err)
+    | some false, some _ => parseHeaderT rest b
+    | _, _ => none
+  | _ :: _, _ => none
+
 /-- `Stream::send_packet`: header ++ payload -/
 def sendPacket (p : Packet) : List Nat :=
   header p.kind.msgType (encode p).length ++ encode p
